@@ -181,7 +181,7 @@ func c06Segments(o *out, segs []string) {
 }
 
 func propC06(o *out, r *rng, thorough bool) {
-	special := []rune{'\'', '"', '\\', '\n', '\r', 0, ' ', '\t', '/', '$', ';', '-', '*', '.', ',', '(', ')', '=', 'a', 'Z', '_', '0', '9', 'n', 0xFFFD, 0x212A, 0x130, 0x17F, 0xE9, 0x65E5, 0x1F600, 0x7F, 0x1, 0x85, 0x2028}
+	special := []rune{'\'', '"', '\\', '\n', '\r', 0, ' ', '\t', '/', '$', ';', '-', '*', '.', ',', '(', ')', '=', 'a', 'Z', '_', '0', '9', 'n', 0xFFFD, 0x212A, 0x130, 0x17F, 0xE9, 0x65E5, 0x1F600, 0x7F, 0x1, 0x85, 0x2028, 0xFEFF, 0x200B, 0xA0}
 	// every single rune of the special alphabet and every pair; every ASCII rune
 	for c := rune(0); c < 128; c++ {
 		c06One(o, string(c), "ascii")
@@ -189,6 +189,15 @@ func propC06(o *out, r *rng, thorough bool) {
 	for _, a := range special {
 		for _, b := range special {
 			c06One(o, string([]rune{a, b}), "pair")
+		}
+	}
+	// code points a text layer might treat specially (byte order mark, zero width, bidi and format controls, line and
+	// paragraph separators, non-breaking and exotic spaces, noncharacters, private use, combining marks, the last
+	// code point): alone, between letters, next to each quote and the escape character
+	for _, c := range []rune{0xFEFF, 0xFFFE, 0xFFFF, 0xFFFD, 0xFFFC, 0x200B, 0x200C, 0x200D, 0x200E, 0x200F, 0x202A, 0x202E, 0x2060, 0x2066, 0x2069, 0x061C, 0x180E, 0x00AD, 0x2028, 0x2029, 0x0085,
+		0x00A0, 0x1680, 0x2000, 0x2003, 0x202F, 0x205F, 0x3000, 0x0301, 0x0300, 0xFE0F, 0xFE00, 0x1F3FB, 0xE000, 0xF8FF, 0xD7FF, 0x10000, 0x10FFFF, 0xFDD0, 0x1D173, 0x7F, 0x80, 0x9F, 0x1B, 0x08, 0x0B, 0x0C} {
+		for _, form := range []string{"%c", "a%cb", "%c%c", "'%c", "%c'", "\"%c", "%c\"", "\\%c", "%c\\", " %c ", "%c.x", "x.%c", "1%c", "_%c"} {
+			c06One(o, strings.Replace(form, "%c", string(c), -1), "codepoint")
 		}
 	}
 	words := []string{"", "select", "SELECT", "SeLeCt", "from", "time", "true", "FALSE", "and", "or", "ſelect", "KelvinK", "a.b", "a..b", "1abc", "abc1", "_x", "x-y", "with'single", "with\"double", "back\\slash",
